@@ -291,3 +291,45 @@ sl_harness! {
         core::mem::forget(txs); core::mem::forget(st);
     }
 }
+
+// W6 (C15): the seller may sell everything; its shares then split m-for-1 and
+// it buys y post-split shares, all inside or outside the window: the
+// acquisition counts as y/m shares of the sale's period.
+sl_harness! {
+    #[kani::unwind(5)]
+    fn c15_w_sale_split_buy() {
+        let bd = any_in(1, SH_MAX);
+        let n = any_in(1, SH_MAX);
+        ks::assume(n <= bd);
+        let two = ks::any_bool(); // 2-for-1 or 1-for-1
+        let m = if two { 2 } else { 1 };
+        let y = any_in(1, SH_MAX);
+        let o1 = any_in(0, OFF_MAX); let g = any_in(0, 10);
+        let o2 = o1 + g;
+        let st = state_before_sale(bd, None, None);
+        let txs = vec![a_sale(0, n, 0), a_split(0, m, 1, SALE_DAY + o1, 1), a_buy(0, y, SALE_DAY + o2, 2)];
+        let r = get_superficial_loss_ratio(0, &txs, &st);
+        let in1 = o1 <= 30; let in2 = o2 <= 30;
+        // in tenths of a share of the sale's split period
+        let acq10 = if in2 { if in1 && two { y * 5 } else { y * 10 } } else { 0 };
+        let held10 = (bd - n) * 10 + acq10;
+        match r {
+            Ok(res) => {
+                let superficial = acq10 > 0 && held10 > 0;
+                match &res {
+                    Some(rr) => {
+                        vcover!("superficial");
+                        assert!(superficial);
+                        let num10 = min3(n * 10, acq10, held10);
+                        assert!(*rr.sfl_ratio.numerator == dec(num10, 1));
+                        assert!(*rr.sfl_ratio.denominator == dec(n, 0));
+                    }
+                    None => { vcover!("not superficial"); assert!(!superficial); }
+                }
+                core::mem::forget(res);
+            }
+            Err(_) => assert!(false, "no later sale: the scan must not reject"),
+        }
+        core::mem::forget(txs); core::mem::forget(st);
+    }
+}
